@@ -181,3 +181,87 @@ Theorem C19_hops_local : forall pkt, (3 < length pkt)%nat ->
   increment_hops pkt = firstn 3 pkt ++ [(nth 3 pkt 0 + 1) mod 256] ++ skipn 4 pkt.
 Proof. exact increment_hops_spec. Qed.
 Print Assumptions C19_hops_local.
+
+(* ---------------------------------------------------------------- DHCPv4 reply builder *)
+(* buildDHCPv4Reply (after the RFC 3396 fix), all xid / addresses / chaddr (<= 16 bytes) / option lists with values of
+   ANY length: the message exists and the independent decoder gets op=BOOTREPLY, the request's xid, ciaddr and
+   chaddr, the offered yiaddr, the magic cookie, END directly after the last option; every decoded option has a
+   1-byte-representable length (no overlap) and for every code the RFC 3396 value is the concatenation of the intended
+   values (message type first) *)
+Theorem C19_reply_decodes : forall xid ci yi si hw mt opts,
+  xid < 4294967296 -> (length hw <= 16)%nat -> Forall opt_code_ok opts ->
+  exists p view, build_dhcp4_reply Repaired xid ci yi si hw mt opts = Ok p /\ ref_decode4 p = Some view /\
+    v_op view = 2 /\ v_xid view = xid /\ v_yiaddr view = ip4_field yi /\ v_ciaddr view = ip4_field ci /\
+    v_chaddr view = hw ++ zeros (16 - length hw) /\
+    v_cookie_ok view = true /\ v_end view = EndSeen [] /\
+    Forall (fun o => (length (snd o) <= 255)%nat /\ fst o <> 0 /\ fst o <> 255) (v_opts view) /\
+    forall code, opt_value code (v_opts view) = concat (map snd (filter (has_code code) ((53, [mt mod 256]) :: opts))).
+Proof. exact reply_decodes. Qed.
+Print Assumptions C19_reply_decodes.
+
+Example C19_reply_nonvacuous :
+  exists p view, build_dhcp4_reply Repaired 305419896 None (Some [10;0;0;2]) (Some [10;0;0;1]) [170;187;204;221;238;255] 5
+                   [(54, [10;0;0;1]); (51, [0;0;14;16]); (6, [8;8;8;8;1;1;1;1])] = Ok p /\
+    ref_decode4 p = Some view /\ v_xid view = 305419896 /\ v_yiaddr view = [10;0;0;2] /\
+    v_opts view = [(53, [5]); (54, [10;0;0;1]); (51, [0;0;14;16]); (6, [8;8;8;8;1;1;1;1])].
+Proof. eexists. eexists. vm_compute. repeat split. Qed.
+Print Assumptions C19_reply_nonvacuous.
+
+(* today's code: a 256-byte value (64 DNS servers) is written with length byte 0; the decoder then reads the value
+   bytes as further options: the DNS value is lost and the message does not end in END *)
+Theorem C19_reply_decodes_refuted :
+  exists xid hw mt opts p view, Forall opt_code_ok opts /\
+    build_dhcp4_reply Defective xid None None None hw mt opts = Ok p /\ ref_decode4 p = Some view /\
+    (opt_value 6 (v_opts view) <> concat (map snd (filter (has_code 6) opts)) /\ v_end view <> EndSeen []).
+Proof.
+  exists 1, [1;2;3;4;5;6], 5, [(6, concat (repeat [8;8;8;8] 64))]. eexists. eexists.
+  split; [repeat constructor; cbn; lia|]. vm_compute. repeat split; discriminate.
+Qed.
+Print Assumptions C19_reply_decodes_refuted.
+
+(* ---------------------------------------------------------------- DHCPv6 *)
+(* Response.Serialize: message type, transaction id and exactly the intended option list (client-id, server-id,
+   IA_NA, IA_PD, DNS, status, extras, in this order) come back from the reference TLV decoder, nothing else *)
+Theorem C19_dhcp6_roundtrip : forall r, length (r_txid r) = 3%nat -> r_type r < 256 -> Forall opt6_ok (options6 r) ->
+  nth 0 (serialize6 r) 0 = r_type r /\ firstn 3 (skipn 1 (serialize6 r)) = r_txid r /\
+  tlv6_all (skipn 4 (serialize6 r)) = options6 r.
+Proof. exact dhcp6_roundtrip. Qed.
+Print Assumptions C19_dhcp6_roundtrip.
+
+Example C19_dhcp6_roundtrip_nonvacuous :
+  let r := {| r_type := 7; r_txid := [1;2;3]; r_client := [0;1;9]; r_server := [0;3;7;7];
+              r_iana := Some {| na_iaid := 1; na_t1 := 10; na_t2 := 16; na_addr := Some (zeros 15 ++ [1]); na_pref := 20; na_valid := 30 |};
+              r_iapd := None; r_dns := [Some (zeros 15 ++ [53])]; r_status := Some (0, [111;107]); r_extras := [(24, [1;97;0])] |} in
+  Forall opt6_ok (options6 r) /\
+  exists q, parse_message6 (serialize6 r) = Some q /\ q_client q = Some [0;1;9] /\ q_server q = Some [0;3;7;7] /\
+            q_dns q = [zeros 15 ++ [53]] /\ q_status q = Some (0, [111;107]) /\
+            bind_opt (q_iana q) p_addr = Some (zeros 15 ++ [1]).
+Proof. cbv zeta. split; [repeat constructor; cbn; lia|]. eexists. vm_compute. repeat split. Qed.
+Print Assumptions C19_dhcp6_roundtrip_nonvacuous.
+
+(* BuildRelayForward / extractRelayMessage / BuildRelayReply / UnwrapRelayReply: the wrapped message comes back
+   byte for byte, the relay header carries hop/link/peer, the relay options are exactly the configured ones *)
+Theorem C19_relay_wrap_unwrap : forall msg p,
+  blen msg < 65536 -> blen (rp_ifid p) < 65536 -> blen (rp_remote p) + 4 < 65536 -> blen (rp_sub p) < 65536 ->
+  extract_relay_message (build_relay_forward msg p) = Some msg /\
+  tlv6_all (skipn 34 (build_relay_forward msg p)) = relay_opts p ++ [(9, msg)] /\
+  firstn 34 (build_relay_forward msg p) = relay_hdr 12 (rp_hop p) (rp_link p) (rp_peer p).
+Proof. exact relay_forward_unwrap. Qed.
+Print Assumptions C19_relay_wrap_unwrap.
+
+Theorem C19_relay_reply_unwrap : forall inner hop link peer ifid, blen inner < 65536 -> blen ifid < 65536 ->
+  unwrap_relay_reply (build_relay_reply inner hop link peer ifid) = Ok inner.
+Proof. exact relay_reply_unwrap. Qed.
+Print Assumptions C19_relay_reply_unwrap.
+
+(* today's code: RewriteV6Lifetimes with the infinite preferred lifetime writes T2 < T1 *)
+Theorem C19_v6_t2_refuted :
+  exists pref, pref < 4294967296 /\ pref_t2 Defective pref < pref_t1 pref /\ pref_t1 pref <= pref_t2 Repaired pref.
+Proof. exists 4294967295. vm_compute. repeat split; discriminate. Qed.
+Print Assumptions C19_v6_t2_refuted.
+
+(* after the fix the renewal times are ordered for every lease / preferred lifetime: T1 <= T2 <= lifetime *)
+Theorem C19_t1_le_t2 : forall x, x / 2 <= t2_of Repaired x /\ pref_t1 x <= pref_t2 Repaired x /\
+                                 t2_of Repaired x <= x /\ pref_t2 Repaired x <= x.
+Proof. exact t1_le_t2. Qed.
+Print Assumptions C19_t1_le_t2.
